@@ -45,6 +45,25 @@ def site_before(cfg, s1, s2):
     return cfg.dominates(s1.b, s2.b)
 
 
+def chain_elems(cfg, start):
+    """Elements of the straight-line region that begins with block `start`: follow single live successors until a block with a
+    branch, the exit, or a join (a block with more than one live predecessor) is reached.  Yields (block, index, elem dict).
+    A region that a helper extraction / inlining spread over several blocks reads like the one block it used to be."""
+    b = start
+    seen = set()
+    while b is not None and b not in seen:
+        seen.add(b)
+        blk = cfg.blocks[b]
+        if b != start and len(cfg.lpreds.get(b, [])) > 1:
+            return
+        for i, e in enumerate(blk.elems):
+            yield b, i, e
+        ls = blk.live_succs()
+        if len(ls) != 1 or b == cfg.exit:
+            return
+        b = ls[0]
+
+
 def forward_scan(cfg, start, visit, include_start=False):
     """Walk all live paths forward from site/position `start` = (b, i).
     visit(b, i, x) returns 'stop' to cut the path after this element, 'hit' to
